@@ -239,7 +239,7 @@ example : Generated.CtxFacts.changeCountBits = 16 := by decide
 example : internalMods.map (fun m => (m.src.name, m.implemented)) =
     Generated.CtxFacts.internalModules.map (fun x => (x.1.toUTF8.toList, x.2)) := by decide +kernel
 
-/-! ## the counter and features in an explicit-compile context (F53) -/
+/-! ## the counter and features in an explicit-compile context (F133) -/
 
 open LyModel.Ctx.Ex in
 /-- `change_count` is incremented by `lys_parse_in` and `lys_compile` only: with LY_CTX_EXPLICIT_COMPILE a successful
@@ -264,7 +264,7 @@ example :
      | .error _ => false) = true := by decide +kernel
 
 open LyModel.Ctx.Ex in
-/-- **F55 (the open question F12, settled).**  `yl_roundtrip` is false as stated: a module without a revision has no
+/-- **F135 (the open question F12, settled).**  `yl_roundtrip` is false as stated: a module without a revision has no
     `revision` leaf in the yang-library data, `ly_ctx_new_yldata` passes NULL, and NULL means "the newest revision the
     sources have" — with `bbb` (no revision) implemented and `bbb@2021-03-03` also among the sources, the rebuilt context
     implements the other revision. -/
